@@ -82,11 +82,13 @@ func variantsFor(thorough bool) []variant {
 		{JWT: false, Alg: jose.RS256, Caps: vstore.Full},
 		{JWT: true, Alg: jose.RS256, Caps: vstore.Full},
 		{JWT: true, Alg: jose.RS256, Caps: vstore.Caps{CC: true, TE: true, Dev: true, Extras: true}},
+		{JWT: false, Alg: jose.RS256, Caps: vstore.Full, NoPost: true},
 	}
 	if !thorough {
 		return vs
 	}
-	seen := map[string]bool{vs[0].String(): true, vs[1].String(): true, vs[2].String(): true}
+	seen := map[string]bool{vs[0].String(): true, vs[1].String(): true, vs[2].String(): true, vs[3].String(): true}
+	vs = append(vs, variant{JWT: true, Alg: jose.ES256, Caps: vstore.Caps{CC: true, TE: true, Dev: true, Extras: true}, NoPost: true})
 	caps := vstore.AllCaps()
 	caps = append(caps, vstore.Caps{Extras: true}, vstore.Caps{Dev: true, Extras: true}, vstore.Caps{CC: true, TE: true, Extras: true}, vstore.Caps{CC: true, TE: true, Dev: true, Extras: true})
 	for _, jwt := range []bool{false, true} {
@@ -192,6 +194,11 @@ func (h *harness) baseline(c *combo) {
 	mandatory := c.vi < h.quickVar && !f.Optional
 	mname := fmt.Sprintf("baseline:v%d:%s", c.vi, name)
 	if x.err != nil {
+		if v.NoPost && strings.Contains(x.err.Error(), "auth_method post not supported") {
+			// the flow's client cannot obtain its prerequisites in this configuration: nothing to enumerate
+			run.Count("baseline", "blocked-by-no-post-configuration")
+			return
+		}
 		if f.Optional {
 			run.Count("baseline", "optional-flow-blocked")
 			run.Count("blocked_optional_flow", name+": "+clip(x.err.Error(), 160))
@@ -217,6 +224,11 @@ func (h *harness) baseline(c *combo) {
 		return
 	}
 	expectOK := f.capsOK(v.Caps) && !f.ErrBase
+	if v.NoPost && expectOK && !f.OK(x.e, x.resp) && isErrorAnswer(f, x.e, x.resp) {
+		// a flow of a client_secret_post client: refused by configuration; the refusal itself is enumerated
+		expectOK = false
+		run.Count("baseline", "refused-by-no-post-configuration")
+	}
 	switch {
 	case expectOK && f.OK(x.e, x.resp):
 		run.Count("baseline", "success")
